@@ -640,7 +640,8 @@ pub fn scenario(name: &str, params: &Value) -> Scenario {
                     if !sys.dead {
                         sys.events.push(format!("TransientReadError({:?}), then the remaining {} bytes and a PINGRESP", kind, base.len() - k));
                         sys.classes.push("TransientReadError".into());
-                        sys.w.read_error_once(kind);
+                        let tk = sys.w.wire.borrow().transient_kind;
+                        sys.w.read_error_once(tk);
                         let mut rest = base[k..].to_vec();
                         rest.extend(SPacket::Pingresp.encode());
                         sys.w.deliver(rest);
